@@ -39,10 +39,10 @@ def shape_lines(shape):
 
 
 def shapes(tier):
-    fx = 'BHLIT' if tier == 'quick' else 'BbHhLlIJQTtFDEZ'
+    fx = 'BHLITD' if tier == 'quick' else 'BbHhLlIJQTtFDEZ'
     out = []
     for n in (1, 2, 3):
-        for t in itertools.product(fx, repeat=n):
+        for t in itertools.product(fx if n < 3 or tier == 'thorough' else 'BHLTD', repeat=n):
             out.append(''.join(t))
     if tier == 'thorough':
         for t in itertools.product('BHLTD', repeat=4):
